@@ -128,6 +128,10 @@ def pool_target(x):
         # fails, but leaves a non-daemon thread behind: the worker reports its end while its process lingers
         import threading
         threading.Thread(target=time.sleep, args=(20.0,), name='left-behind').start()
+        d = os.environ.get('LIFE_FLAGDIR')
+        if d:        # tells the harness which worker processes have ended their work and merely linger
+            with open(os.path.join(d, 'linger.%d' % os.getpid()), 'w') as f:
+                f.write('x')
         raise RuntimeError('poison input (process lingers)')
     if x < 0:
         raise RuntimeError('poison input')
